@@ -208,3 +208,20 @@ func Gen(store string) func(t *rapid.T) *Case {
 		return c
 	}
 }
+
+func GenConc(store string) func(t *rapid.T) *ConcCase {
+	return func(t *rapid.T) *ConcCase {
+		c := &ConcCase{Store: store, Writers: rapid.IntRange(2, 8).Draw(t, "writers"), Each: rapid.IntRange(5, 60).Draw(t, "each"),
+			Limit: rapid.SampledFrom([]int{0, 1, 2, 7}).Draw(t, "limit"), Procs: rapid.SampledFrom([]int{2, 4, 16}).Draw(t, "procs"), Rounds: 3}
+		if store == "" {
+			c.Store = rapid.SampledFrom([]string{"memory", "memory", "sqlite", "sqlitemem", "durable"}).Draw(t, "store")
+		}
+		if c.Store == "durable" {
+			c.Limit = 0 // limited reads cut chunks short on this store (listed finding)
+		}
+		if c.Store != "memory" && c.Each > 25 {
+			c.Each = 25
+		}
+		return c
+	}
+}
